@@ -58,7 +58,7 @@ func TestModelAndGeneratorsAgree(t *testing.T) {
 						t.Fatalf("%s: %d args for %d params", s.Name, len(args), len(s.Params))
 					}
 					for i, a := range args {
-						if !valuni.HasType(a, s.Params[i].T) {
+						if !valuni.Conforms(a, s.Params[i].T, false) { // a bare T is admitted for a ?T parameter, as SpawnSync does
 							t.Fatalf("%s: arg %d %s is not a %s", s.Name, i, a, s.Params[i].T)
 						}
 					}
@@ -125,15 +125,15 @@ func TestKFLines(t *testing.T) {
 	}
 }
 
-// TestArgAnyObjectAliased documents a genuine defect of the unchanged tree that is kept out of the workload:
-// an any-object argument is handed to the callee as it is, the callee's set() changes the host's value.
+// TestArgAnyObjectAliased: an any-object argument was handed to the callee as it was, the callee's set() changed
+// the host's value (repaired in /repo; arg_any is part of the fresh variant since). No violation may be left.
 func TestArgAnyObjectAliased(t *testing.T) {
 	o := valuni.AnyObjV(valuni.KV{K: "z", V: iv(1)})
-	pl := Payload{Variant: Variant{Order: 1, Init: "zero", FreshAny: true}, Limits: smallLimits, Reuse: true,
+	pl := Payload{Variant: Variant{Order: 1, Init: "zero", Fresh: true}, Limits: smallLimits, Reuse: true,
 		Ops: []Op{op("arg_any", o, sv("a"), iv(1)), op("arg_any", o, sv("b"), iv(2))}}
 	h := runHistory(pl)
 	for _, v := range h.viol {
-		t.Logf("%s: %s", v.sig, v.why)
+		t.Errorf("%s: %s", v.sig, v.why)
 	}
 	if h.inconcl != "" {
 		t.Fatalf("inconclusive: %s", h.inconcl)
